@@ -1316,7 +1316,7 @@ fn part_a_shard(run: &Run, shard: usize, n_shards: usize, san: bool) {
 	let (n_chains, stride, budget_s): (usize, usize, u64) = if san {
 		(1, 6, 120)
 	} else {
-		run.tier.pick((16, 1, 45), (320, 1, 420))
+		run.tier.pick((16, 1, 45), (320, 1, 300))
 	};
 	let tally = Mutex::new(ATally::default());
 	let sc = Scratch::new("c04");
@@ -2022,15 +2022,15 @@ fn main() {
 	if san {
 		part_a_shard(&run, 0, 1, true);
 	} else {
-		run.spawn_workers(16, &[], run.tier.pick(60, 480));
+		run.spawn_workers(16, &[], run.tier.pick(60, 360));
 	}
 	let a_wall = t_start.elapsed().as_secs_f64();
 
 	// ------------------------------------------------------------ Part B
 	check_reference_constants(&run);
-	let total_b: u64 = if san { 20_000 } else { run.tier.pick(1_600_000, 48_000_000) };
+	let total_b: u64 = if san { 20_000 } else { run.tier.pick(1_600_000, 40_000_000) };
 	let threads_b: u64 = if san { 2 } else { 16 };
-	let deadline_b = Instant::now() + StdDuration::from_secs(if san { 60 } else { run.tier.pick(20, 240) });
+	let deadline_b = Instant::now() + StdDuration::from_secs(if san { 60 } else { run.tier.pick(20, 180) });
 	let seed = run.seed;
 	let canonical = part_b_canonical();
 	let mut stats: Vec<BStats> = std::thread::scope(|s| {
